@@ -665,8 +665,41 @@ class C17:
         res["nontrivial"] = nontrivial[0] > 0
 
     # -- minimisation ------------------------------------------------------------
+    def _compact(self, sc):
+        """Drop environments, main templates and data specs no operation refers to (re-indexing)."""
+        ops = [op for c in sc["clients"] for op in c["ops"]]
+        used_e = sorted({op["env"] for op in ops if "env" in op})
+        used_d = sorted({op["data"] for op in ops if "data" in op})
+        emap = {e: i for i, e in enumerate(used_e)}
+        dmap = {d: i for i, d in enumerate(used_d)}
+        envs = []
+        mmaps = {}
+        for e in used_e:
+            es = sc["envs"][e]
+            used_m = sorted({op["main"] for op in ops if op.get("env") == e and "main" in op})
+            mmaps[e] = {m: i for i, m in enumerate(used_m)}
+            envs.append({**es, "mains": [es["mains"][m] for m in used_m]})
+
+        def fix(op):
+            op = dict(op)
+            if "env" in op:
+                e = op["env"]
+                if "main" in op:
+                    op["main"] = mmaps[e][op["main"]]
+                op["env"] = emap[e]
+            if "data" in op:
+                op["data"] = dmap[op["data"]]
+            return op
+        out = {**sc, "envs": envs, "datas": [sc["datas"][d] for d in used_d],
+               "clients": [{**c, "ops": [fix(op) for op in c["ops"]]} for c in sc["clients"]]}
+        return out
+
     def shrink(self, sc):
         cl = sc["clients"]
+        comp = self._compact(sc)
+        if len(comp["envs"]) < len(sc["envs"]) or len(comp["datas"]) < len(sc["datas"]) or \
+                sum(len(e["mains"]) for e in comp["envs"]) < sum(len(e["mains"]) for e in sc["envs"]):
+            yield comp
         for i in range(len(cl)):
             if len(cl) > 1:
                 yield {**sc, "clients": cl[:i] + cl[i + 1:]}
